@@ -259,11 +259,29 @@ void genStream(Prng& r, Plan& p, int tier)
 	int nm = r.below(2) ? 0 : 1 + (int)r.below(3);
 	for (int i = 0; i < nm; i++)
 		p.ops.push_back(op("mut", {(int64_t)r.below(5), (int64_t)(r.next() >> 20)}));
+	// comments (accepted by the parser, not part of RFC 8259): their state must survive chunk boundaries too
+	int nc = r.below(3) == 0 ? 1 + (int)r.below(3) : 0;
+	for (int i = 0; i < nc; i++)
+		p.ops.push_back(op("mut", {5, (int64_t)(r.next() >> 20)}));
 	p.ops.push_back(op("cuts", {(int64_t)(r.next() >> 20), (int64_t)(1 + r.below(6))}));
 	if (r.below(12) == 0)
 		p.p["nest"] = r.below(2) ? 512 : (int64_t)r.below(600); // deep nesting documents
 	static const int chunks[] = {1, 2, 3, 5, 8, 16, 64, 255, 16382};
 	p.p["knob.xdl.read_chunk"] = chunks[r.below(sizeof chunks / sizeof chunks[0])];
+}
+
+std::string tokenLike(Prng& r)
+{
+	static const char* a = "abc xyz 123 {}[]\",:* / \\ \t";
+	size_t n = r.below(20), al = strlen(a);
+	std::string s;
+	for (size_t i = 0; i < n; i++)
+		s += a[r.below((uint32_t)al)];
+	// must not end the comment early in a way that differs between the two comment styles: keep "*/" and newlines out
+	for (size_t i = 0; i + 1 < s.size(); i++)
+		if (s[i] == '*' && s[i + 1] == '/')
+			s[i + 1] = '-';
+	return s;
 }
 
 asl::Var feed(const std::string& text, const std::vector<size_t>& cuts)
@@ -374,6 +392,21 @@ void runStream(const Plan& p)
 			Prng r((uint64_t)o.arg(1));
 			mutated = true;
 			size_t at = r.below((uint32_t)text.size());
+			if (std::abs(o.arg(0)) % 6 == 5)
+			{
+				// insert a comment after a structural character (outside strings for generated documents most of the time)
+				std::vector<size_t> spots;
+				for (size_t i = 0; i < text.size(); i++)
+					if (text[i] == ',' || text[i] == '[' || text[i] == '{' || text[i] == ':')
+						spots.push_back(i + 1);
+				if (!spots.empty())
+				{
+					size_t where = spots[r.below((uint32_t)spots.size())];
+					std::string body = tokenLike(r);
+					text.insert(where, r.below(2) ? "/*" + body + "*/" : "//" + body + "\n");
+				}
+				continue;
+			}
 			switch (std::abs(o.arg(0)) % 5)
 			{
 			case 0: text.resize(at); break;                                            // truncation
